@@ -25,6 +25,8 @@ _add(["Glc6S", "Gal6S", "Man6P"], 1, [2, 3, 4], cls="hexp-mod")
 _add(["Gal3S", "Glc3Ac"], 1, [2, 4, 6], cls="hexp-mod")
 _add(["GlcNAc6S"], 1, [3, 4], cls="hexnac-mod")
 _add(["Fuc2Ac"], 1, [3, 4], cls="dhexp-mod")
+# bicyclic residues that can sit inside a chain (two ring-closure labels of their own)
+_add(["3,6-Anhydro-Gal", "3,6-Anhydro-Glc"], 1, [2, 4], cls="anhydro-inner")
 
 ROOT_ONLY = {
     "1,6-Anhydro-Glc": (None, (2, 3, 4), (), "anhydro"),
